@@ -35,7 +35,10 @@ each in a different function for eleven, eight, nine and seven properties (later
 used, nothing else; the fifth wave was time-boxed to an hour per agent), and a sixth, 20-minute wave of two changes each for
 C12, C13, C14, C15 and C17 (ten changes: one was rejected because the package tests fail with it, five repeated the site
 and effect of an earlier seed and were caught as built but not kept a second time, four were kept: two caught as built,
-two missed and answered by C15 instance-reuse histories and C17 band-edge points).  Every change was confirmed by me before it was kept (`tools_confirm_seed.sh`: demo passes on the clean
+two missed and answered by C15 instance-reuse histories and C17 band-edge points);
+a last 9-minute request for one change each to C13 and C15, told the sites already used, gave one more C15 change (caught as
+built) and, for C13, no change that survives the package tests (the agent's report lists five candidate slips that are either
+behaviour-preserving or caught by test_utils.py)).  Every change was confirmed by me before it was kept (`tools_confirm_seed.sh`: demo passes on the clean
 tree and fails with the patch, in the agent's worktree; the named package tests pass with the patch in a scratch export of
 /repo HEAD under /var/tmp; the property's check is run with `FA_REPO` pointing at that export; the export is removed).
 Nothing was ever applied to /repo itself.  Each kept change lives in `/verif/seeded/<id>/` (`patch.diff`, `demo.py`, the
@@ -45,7 +48,7 @@ the check of its own property); `tools_verify_seeds.sh` re-runs all of them agai
 {len(names)} changes kept; {first} were caught by the checks as they stood when the change arrived, {missed} were missed
 at first (or would have been: for a few I strengthened the check on reading the agent's report, before running it) and
 are caught after the strengthening named in the table; one is deliberately not judged.  `seeded/VERIFY.log` is the
-last complete `tools_verify_seeds.sh` run over the first 142, with the lines of the four wave-6 seeds (run singly against
+last complete `tools_verify_seeds.sh` run over the first 142, with the lines of the five later seeds (run singly against
 the committed checks) appended ({ncaught} CAUGHT, the not-judged one MISSED).
 
 | seed | change | needs | result |
